@@ -16,7 +16,9 @@ where
     let w = edge_tree.last().unwrap();
     path.push(w.clone());
     let mut i = 0;
-    for edge in edge_tree.iter().rev() {
+    // The last edge is already on the path: start the scan at its predecessor,
+    // otherwise a closing self-loop would be matched against itself.
+    for edge in edge_tree.iter().rev().skip(1) {
         let Edge(_, v, _) = edge;
         let Edge(s, _, _) = &path[i];
         if s == v {
